@@ -101,7 +101,12 @@ where
             "blocking",
         );
     }
-    let w = worker::start(f);
+    // The thread is created when the closure is first scheduled, and only while few closure
+    // threads are alive (thread ids are a system-wide resource and wide graphs have hundreds of
+    // closures pending): beyond the cap a closure runs inline and atomically, as before.
+    const MAX_LIVE_CLOSURE_THREADS: usize = 6;
+    let mut pending: Option<F> = Some(f);
+    let mut w: Option<worker::Worker<T>> = None;
     rt::spawn(
         std::future::poll_fn(move |cx| {
             if rt::poll_sched_point(cx, "blocking-step").is_pending() {
@@ -111,7 +116,21 @@ where
                 rt.evv("blocking-run", "");
                 rt.trace.flush();
             });
-            let stopped = w.step();
+            if let Some(f) = pending.take() {
+                let live = with(|rt| rt.live_closure_threads);
+                if live >= MAX_LIVE_CLOSURE_THREADS {
+                    let v = f();
+                    with(|rt| {
+                        rt.probe("blocking-closure-ran-inline");
+                        vfs::scan_workdirs(rt)
+                    });
+                    return std::task::Poll::Ready(v);
+                }
+                with(|rt| rt.live_closure_threads += 1);
+                w = Some(worker::start(f));
+            }
+            let wk = w.as_ref().expect("zsim: blocking closure polled after completion");
+            let stopped = wk.step();
             // what the closure logged and wrote while it ran
             let logs: Vec<String> = std::mem::take(&mut *worker::PENDING_LOGS.lock().unwrap());
             with(|rt| {
@@ -130,7 +149,9 @@ where
                     std::task::Poll::Pending
                 }
                 None => {
-                    let out = w.result.lock().unwrap().take().expect("zsim: blocking closure finished without a result");
+                    with(|rt| rt.live_closure_threads -= 1);
+                    let out = wk.result.lock().unwrap().take().expect("zsim: blocking closure finished without a result");
+                    w = None;
                     match out {
                         Ok(v) => std::task::Poll::Ready(v),
                         Err(p) => std::panic::resume_unwind(p),
